@@ -63,7 +63,9 @@ func drawList(rt *rapid.T, label string, focus *linter.CheckerInfo, byName, byTa
 		case 2:
 			out = append(out, "#"+allTags[rapid.IntRange(0, len(allTags)-1).Draw(rt, label+"-tag")])
 		case 3:
-			out = append(out, pickT(rt, label+"-unknown", []string{"nosuchchecker", "#nosuchtag", "appendassign", "#Diagnostic", "#", "ruleguard2"}))
+			out = append(out, pickT(rt, label+"-unknown", []string{"nosuchchecker", "#nosuchtag", "appendassign", "#Diagnostic", "#", "ruleguard2",
+				// a tag spelled as a name and a name spelled as a tag are unknown entries too
+				"diagnostic", "style", "experimental", "performance", "opinionated", "#appendAssign", "#hugeParam", "#dupSubExpr", "#assignOp"}))
 		case 4:
 			out = append(out, "")
 		case 5:
